@@ -1,4 +1,5 @@
 import builtins
+import contextlib
 import copy
 import copyreg
 import functools
@@ -87,6 +88,33 @@ class _modules_copyable:
                 self.patched_table = False
 
 
+@contextlib.contextmanager
+def _thawed(obj: Any, thaw: bool = True):
+    """
+    Temporarily lift the frozen guard from `obj` while we finish preparing it.
+    This must only be used on objects that we own (e.g. a copy that has not yet
+    been handed back to the user), and reuses the same escape hatch as the
+    constructor.
+    """
+    metadata = getattr(obj, "__spec_class__", None)
+    if (
+        not thaw
+        or not (metadata and metadata.frozen)
+        or getattr(obj, "__spec_class_initializing__", False)
+    ):
+        yield obj
+        return
+    obj.__setattr__(
+        "__spec_class_initializing__", True, force=True, skip_invalidation=True
+    )
+    try:
+        yield obj
+    finally:
+        obj.__delattr__(
+            "__spec_class_initializing__", force=True, skip_invalidation=True
+        )
+
+
 def mutate_attr(
     obj: Any,
     attr: str,
@@ -125,30 +153,33 @@ def mutate_attr(
             )
 
     # If not inplace, copy before writing new value for attribute
+    copied = False
     if not (inplace or metadata and metadata.do_not_copy):
         obj = copy.deepcopy(obj)
+        copied = True
 
-    # Perform actual mutation
-    try:
-        getattr(obj.__setattr__, "__raw__", setattr)(obj, attr, value)
-    except AttributeError as e:
-        if (
-            e.args
-            in (  # Let's make this error less obtuse.
-                ("can't set attribute",),  # Python <3.10
-                ("can't set attribute 'x'",),  # Python ==3.10
-            )
-            or e.args
-            and "object has no setter" in e.args[0]  # Python >=3.11
-        ):
-            raise AttributeError(
-                f"Cannot set `{obj.__class__.__name__}.{attr}` to `{value}`. Is this a property without a setter?"
-            ) from e
-        raise
+    with _thawed(obj, thaw=copied):
+        # Perform actual mutation
+        try:
+            getattr(obj.__setattr__, "__raw__", setattr)(obj, attr, value)
+        except AttributeError as e:
+            if (
+                e.args
+                in (  # Let's make this error less obtuse.
+                    ("can't set attribute",),  # Python <3.10
+                    ("can't set attribute 'x'",),  # Python ==3.10
+                )
+                or e.args
+                and "object has no setter" in e.args[0]  # Python >=3.11
+            ):
+                raise AttributeError(
+                    f"Cannot set `{obj.__class__.__name__}.{attr}` to `{value}`. Is this a property without a setter?"
+                ) from e
+            raise
 
-    # Invalidate any caches depending on this attribute
-    if not skip_invalidation and metadata and metadata.invalidation_map:
-        invalidate_attrs(obj, attr, metadata.invalidation_map)
+        # Invalidate any caches depending on this attribute
+        if not skip_invalidation and metadata and metadata.invalidation_map:
+            invalidate_attrs(obj, attr, metadata.invalidation_map)
 
     return obj
 
@@ -289,11 +320,12 @@ def mutate_value(
         if not mutate_safe:
             value = protect_via_deepcopy(value)
             mutate_safe = True
-        for attr, attr_value in attrs.items():
-            if attr in used_attrs:
-                continue
-            if attr_value is not MISSING:
-                setattr(value, attr, attr_value)
+        with _thawed(value, thaw=not inplace):
+            for attr, attr_value in attrs.items():
+                if attr in used_attrs:
+                    continue
+                if attr_value is not MISSING:
+                    setattr(value, attr, attr_value)
     elif attrs:
         raise ValueError("Cannot use attrs on a missing value without a constructor.")
 
@@ -305,10 +337,11 @@ def mutate_value(
     if attr_transforms:
         if not mutate_safe:
             value = protect_via_deepcopy(value)
-        for attr, attr_transform in attr_transforms.items():
-            transformed_value = attr_transform(getattr(value, attr, MISSING))
-            if transformed_value is not MISSING:
-                setattr(value, attr, transformed_value)
+        with _thawed(value, thaw=not inplace):
+            for attr, attr_transform in attr_transforms.items():
+                transformed_value = attr_transform(getattr(value, attr, MISSING))
+                if transformed_value is not MISSING:
+                    setattr(value, attr, transformed_value)
 
     return value
 
